@@ -1,6 +1,6 @@
 from vlib.common import nt_len, NOTE, SCHED_TRUSTED
 
-_COQ = ["Common/ListLemmas.v", "Keyed/Model.v", "Keyed/Spec.v", "Keyed/Proofs.v"]
+_COQ = ["Backoff/Model.v", "Common/ListLemmas.v", "Keyed/Model.v", "Keyed/Spec.v", "Keyed/Proofs.v"]
 _MON = ["Keyed/ProofsCancel.v", "Keyed/ProofsWalk.v", "Keyed/ProofsMono.v", "Keyed/ProofsData.v", "Keyed/ProofsKeys.v", "Keyed/ProofsRoot.v",
         "Keyed/ProofsMon.v", "Keyed/ProofsMon2.v", "Keyed/ProofsInc.v", "Keyed/ProofsMonAll.v",
         "Keyed/ProofsWalk2.v", "Keyed/ProofsTimers.v", "Keyed/ProofsTimers2.v", "Keyed/ProofsRef.v", "Keyed/ProofsReset.v", "Keyed/ProofsRefSim.v", "Keyed/ProofsKI.v",
